@@ -190,6 +190,7 @@ class World:
         self._dir: str | None = None
         self.fail_file_open = False
         self.pending: list[tuple[str, str, tuple]] = []  # (kind, shmid, args)
+        self.abandoned: set = set()  # (key, incarnation) of unfinished datasets paged out under a stale writer
         self.io_result: list = []  # split mode: None while the job's I/O has not run, else the result awaiting delivery
         self.split = False  # split mode: a disk job's I/O and the delivery of its result to the store are two events
 
@@ -310,6 +311,8 @@ class World:
                 self.bad("pageout_during_read", "page-out started while a reader younger than the staleness window holds the dataset", f"key {k}")
             if k in self.writers and self.fresh(self.writers[k]):
                 self.bad("pageout_during_write", "page-out started while the writer is still open", f"key {k}")
+            elif k in self.writers and k not in self.ref_written:
+                self.abandoned.add((k, self.incarnation.get(k, 0)))  # unfinished dataset of a stale writer goes to disk
         else:
             # page-in reserves before reading back
             self.ref_resident[k] = self.sizes[k]
@@ -433,7 +436,7 @@ class World:
             if k not in self.ref_known:
                 self.bad("get_unknown_granted", "get granted for a key the store should not hold", f"get {k}")
             if k not in self.ref_written:
-                if k in self.writers and not self.fresh(self.writers[k]) and any(e[0][0] == "done" and e[1] == "in:ok" for e in self.trace):
+                if (k, self.incarnation.get(k, 0)) in self.abandoned:
                     # the route through staleness: an unfinished dataset older than the window was paged out and back in
                     self.bad("get_before_writer_closed", "unfinished dataset of a writer older than the staleness window became readable after a page-out/page-in round trip", f"get {k}")
                 else:
@@ -633,6 +636,7 @@ class World:
             tuple(sorted((k, d.created < (self.aged_at or 0), tuple(sorted(t < (self.aged_at or 0) for t in d.ongoing_reads.values()))) for k, d in m.datasets.items())),
             tuple(sorted(self.ref_resident)), tuple(sorted(self.ref_known)), tuple(sorted(self.ref_ondisk)),
             tuple(sorted(self.ref_written)), tuple(sorted(self.ref_delayed)),
+            tuple(sorted(a for a in self.abandoned if self.incarnation.get(a[0], 0) == a[1] and a[0] in self.ref_known)),
         )
 
 
